@@ -170,7 +170,13 @@ func HarnessC14CancelledCall() {
 	h := &c14Handler{recv: 3, send: 1}
 	handler := NewBidiStreamHandler("/pkg.Svc/Method", h.run, stackHandlerOptions()...)
 	closes := 0
-	tr := &c15Transport{inner: &stackTransport{handler: handler, bodyCloses: &closes}, ctx: ctx}
+	inner := &stackTransport{handler: handler, bodyCloses: &closes}
+	var tr HTTPClient = &c15Transport{inner: inner, ctx: ctx}
+	if nondetBool("transportIgnoresCancellation") {
+		// a transport that still delivers the response of a round trip that
+		// was in flight when the context became done
+		tr = inner
+	}
 	client := NewClient[[]byte, []byte](tr, stackURL, stackClientOptions(proto)...)
 	stream := client.CallBidiStream(ctx)
 	m := []byte{1}
@@ -195,6 +201,9 @@ func HarnessC14CancelledCall() {
 	_ = stream.CloseResponse()
 	reach("all operations of a cancelled call returned")
 	check(verifQuiesce() == 0, "no goroutine started by the library remains after a cancelled call")
+	if inner.served > 0 && tr == HTTPClient(inner) {
+		check(closes >= 1, "the body of a response that arrived for a cancelled call has been closed")
+	}
 }
 
 // faultCodec is the stack codec with injectable failures for application
